@@ -72,6 +72,8 @@ THEOREMS = [
     "Cotengra.C06.slice_sum",
     "Cotengra.C06.gather_correct",
     "Cotengra.C06.gather_correct_canonical",
+    "Cotengra.C06.gather_einsum_slices",
+    "Cotengra.C06.chunk_correct",
 ]
 TRUSTED = [
     "Lean 4.33 kernel; axioms ⊆ {propext, Classical.choice, Quot.sound}",
